@@ -297,3 +297,32 @@ pub fn parse(name: &str, mut content: Vec<u8>) -> anyhow::Result<graph::Graph> {
 
     Ok(loader.graph)
 }
+
+/// Verification facade: load a manifest (from memory, or from disk when
+/// `content` is None) without touching the db, and dump what was loaded.
+#[cfg(feature = "verif")]
+pub fn verif_load(name: &str, content: Option<Vec<u8>>) -> anyhow::Result<crate::verif::GraphDump> {
+    let mut loader = Loader::new();
+    let id = loader
+        .graph
+        .files
+        .id_from_canonical(to_owned_canon_path(name));
+    let (path, bytes) = match content {
+        Some(mut c) => {
+            c.push(0);
+            (PathBuf::from(name), c)
+        }
+        None => loader.read_file_by_id(id)?,
+    };
+    let mut parser = parse::Parser::new(&bytes);
+    loader.parse_with_parser(&mut parser, path, &[])?;
+    let mut dump = crate::verif::dump_graph(&loader.graph, None);
+    dump.defaults = loader
+        .default
+        .iter()
+        .map(|&id| loader.graph.file(id).name.clone())
+        .collect();
+    dump.pools = loader.pools.iter().map(|(k, v)| (k.clone(), *v)).collect();
+    dump.builddir = loader.builddir.clone();
+    Ok(dump)
+}
